@@ -420,6 +420,90 @@ def run_registration_identity_cases(res):
             if bad:
                 res["violations"].append({"sig": dict(sig, symptom="foreign_rule"), "case": case, "detail": bad})
             res["judged"][sig_key(sig)] = 1
+    # (c) rules registered for a HIGHER argument only (new API with argnums=, deprecated .defvjp / .defgrad with
+    # argnum=1): differentiating w.r.t. argument 0 - alone or jointly - raises, it is never a silent zero
+    from autograd import grad as _grad
+    from autograd.core import primitive as _old_primitive
+
+    for api in ("defvjp_argnums_kw", "deprecated_defvjp", "deprecated_defgrad", "defvjp_argnums_generator", "defvjp_argnums_iter", "defvjp_argnums_numpy_ints", "defjvp_argnums_generator"):
+        res["evaluations"] += 1
+        sig = {"engine": "ext", "family": "higher_argument_only", "api": api}
+        case = {"kind": "registration_identity", "api": api}
+        raw2 = lambda x, y: x * x * y
+        try:
+            with warnings.catch_warnings():
+                warnings.simplefilter("ignore")
+                fwd = api.startswith("defjvp")
+                if api == "defvjp_argnums_kw":
+                    P2 = primitive(raw2)
+                    defvjp(P2, lambda ans, x, y: lambda g: g * x * x, argnums=(1,))
+                elif api == "deprecated_defvjp":
+                    P2 = _old_primitive(raw2)
+                    P2.defvjp(lambda g, ans, vs, gvs, x, y: g * x * x, argnum=1)
+                elif api == "deprecated_defgrad":
+                    P2 = _old_primitive(raw2)
+                    P2.defgrad(lambda ans, x, y: lambda g: g * x * x, argnum=1)
+                else:
+                    # argnums= given as a one-shot iterable / NumPy integers: the rules still land on those arguments
+                    P2 = primitive(raw2)
+                    spell = {"defvjp_argnums_generator": (i for i in (1,)), "defvjp_argnums_iter": iter([1]), "defvjp_argnums_numpy_ints": onp.array([1]), "defjvp_argnums_generator": (i for i in (1,))}[api]
+                    if fwd:
+                        defjvp(P2, lambda g, ans, x, y: g * x * x, argnums=spell)
+                    else:
+                        defvjp(P2, lambda ans, x, y: lambda g: g * x * x, argnums=spell)
+                if fwd:
+                    d1 = make_jvp(lambda t: P2(3.0, t), 2.0)(1.0)[1]
+                else:
+                    d1 = _grad(P2, 1)(3.0, 2.0)
+                loud = []
+                for argn in ((0,), (0, 1)):
+                    try:
+                        if fwd:
+                            make_jvp(lambda t: P2(t[0], t[1] if len(argn) > 1 else 2.0), (3.0, 2.0))((1.0, 1.0))
+                        else:
+                            _grad(P2, argn)(3.0, 2.0)
+                        loud.append(False)
+                    except (NotImplementedError, KeyError):
+                        loud.append(True)
+        except Exception as e:
+            res["violations"].append({"sig": dict(sig, symptom="exception:" + type(e).__name__), "case": case, "detail": traceback.format_exc()[-400:]})
+            continue
+        if abs(float(d1) - 9.0) > 1e-12:
+            res["violations"].append({"sig": dict(sig, symptom="rule_not_routed"), "case": case, "detail": "derivative w.r.t. the argument the rule was registered for: %r, the rule gives 9.0" % (d1,)})
+        elif not all(loud):
+            res["violations"].append({"sig": dict(sig, symptom="not_loud"), "case": case, "detail": "differentiating w.r.t. argument 0 (alone, jointly) of a primitive that only has a rule for argument 1 did not raise: %s" % loud})
+        res["judged"][sig_key(sig)] = 1
+    # (d) a user primitive whose VALUE is integer- or boolean-typed (spike / quantisation with a surrogate derivative):
+    # its registered rules are invoked like anybody's, a missing rule raises
+    for kind in ("integer_valued", "boolean_valued", "float_valued_control"):
+        res["evaluations"] += 1
+        sig = {"engine": "ext", "family": "nonfloat_valued_primitive", "value": kind}
+        case = {"kind": "registration_identity", "value": kind}
+        log2 = []
+        try:
+            with warnings.catch_warnings():
+                warnings.simplefilter("ignore")
+                rawq = {"integer_valued": lambda x: onp.floor(x).astype(onp.int64), "boolean_valued": lambda x: x > 0.5, "float_valued_control": lambda x: onp.floor(x)}[kind]
+                Q = primitive(rawq)
+                defvjp(Q, lambda ans, x: (log2.append("vjp"), lambda g: g * 0.25)[1])
+                defjvp(Q, lambda g, ans, x: (log2.append("jvp"), g * 0.25)[1])
+                xq = onp.array([0.3, 1.7, 2.2])
+                r_ = make_vjp(lambda t: Q(t) * 2.0, xq)[0](onp.ones(3))
+                t_ = make_jvp(lambda t: Q(t) * 2.0, xq)(onp.ones(3))[1]
+                Qn = primitive(rawq)
+                try:
+                    make_vjp(lambda t: Qn(t) * 2.0, xq)[0](onp.ones(3))
+                    loud_ = False
+                except NotImplementedError:
+                    loud_ = True
+        except Exception as e:
+            res["violations"].append({"sig": dict(sig, symptom="exception:" + type(e).__name__), "case": case, "detail": traceback.format_exc()[-400:]})
+            continue
+        if not (onp.allclose(r_, 0.5) and onp.allclose(t_, 0.5) and "vjp" in log2 and "jvp" in log2):
+            res["violations"].append({"sig": dict(sig, symptom="rule_not_invoked"), "case": case, "detail": "registered surrogate rules of a %s primitive: reverse %r forward %r (rules give 0.5), rules invoked %s" % (kind, r_, t_, log2)})
+        elif not loud_:
+            res["violations"].append({"sig": dict(sig, symptom="not_loud"), "case": case, "detail": "a %s primitive without any rule did not raise under differentiation" % kind})
+        res["judged"][sig_key(sig)] = 1
     # re-registration after the primitive has been differentiated once (both modes, both kinds of change)
     for change in ("replace_rule", "add_missing_argnum", "declare_zero"):
         res["evaluations"] += 1
